@@ -704,6 +704,10 @@ def known_findings(ck: Check) -> None:
             from . import c09_defaults
 
             c09_defaults.check_dcase(probe, camp, w)
+        elif "okind" in w:
+            from . import c09_order
+
+            c09_order.check_ocase(probe, camp, w)
         else:
             e2e_case(probe, camp, case_of(w), cfg_of(w), w["model"], w.get("opts", {}))
         if probe.failures:
@@ -755,6 +759,9 @@ def run(ck: Check) -> None:
     ck.translate("Unicode", uni.generate())
     ck.translate("EscTables", esc.generate())
     ck.translate("EnumSites", enum_sites.generate())
+    from ..translate import parse_passes
+
+    ck.translate("ParsePasses", parse_passes.generate())  # the order of the post-passes of Parser.parse (Props/C09 `parse_pass_order_ok`)
     ck.prove()
     ck.assumptions += [
         "C07's assumptions (generated character tables, CaseOK for str.lower/upper, PrefixOK) for the member names",
@@ -774,8 +781,13 @@ def run(ck: Check) -> None:
 
     c09_defaults.campaign_steps(ck, 400 if quick else 4000)
     c09_defaults.campaign_defaults(ck, 260 if quick else 2600)
+    from . import c09_order  # the reuse / collapse / default-member family and the order of the post-passes of Parser.parse
+
+    c09_order.campaigns(ck, quick)
+    ck.search_hooks.append(c09_order.search_order_first)
     ck.search_hooks.append(c09_defaults.search_defaults)
     ck.search_hooks.append(search_enums)
+    ck.search_hooks.append(c09_order.search_order_last)
     known_findings(ck)
 
 
@@ -787,6 +799,10 @@ def replay(ck: Check, path: str) -> int:
         from . import c09_defaults
 
         c09_defaults.check_dcase(ck, camp, inp)
+    elif "okind" in inp:
+        from . import c09_order
+
+        c09_order.check_ocase(ck, camp, inp)
     elif "enum" in inp and "model" in inp:
         e2e_case(ck, camp, case_of(inp), cfg_of(inp), inp["model"], inp.get("opts", {}))
     for f in ck.failures:
